@@ -33,7 +33,7 @@ pub fn pos_arith(_args: &[String]) -> String {
                 let want = len0.map(|l| l.saturating_add(d));
                 tried += 1;
                 if pb.length() != want {
-                    return format!("{{\"found\": true, \"clause\": \"C07 inc_length saturates, an unknown length stays unknown\", \"input\": {{\"length\": {:?}, \"delta\": \"{}\", \"got\": {:?}}}, \"rerun\": \"replay pos_arith\"}}", len0, d, pb.length());
+                    return format!("{{\"found\": true, \"clause\": \"C07 inc_length saturates, an unknown length stays unknown\", \"input\": {{\"length\": \"{:?}\", \"delta\": \"{}\", \"got\": \"{:?}\"}}, \"rerun\": \"replay pos_arith\"}}", len0, d, pb.length());
                 }
                 let pb = ProgressBar::hidden();
                 if let Some(l) = len0 { pb.set_length(l); }
@@ -41,7 +41,7 @@ pub fn pos_arith(_args: &[String]) -> String {
                 let want = len0.map(|l| l.saturating_sub(d));
                 tried += 1;
                 if pb.length() != want {
-                    return format!("{{\"found\": true, \"clause\": \"C07 dec_length saturates at zero\", \"input\": {{\"length\": {:?}, \"delta\": \"{}\", \"got\": {:?}}}, \"rerun\": \"replay pos_arith\"}}", len0, d, pb.length());
+                    return format!("{{\"found\": true, \"clause\": \"C07 dec_length saturates at zero\", \"input\": {{\"length\": \"{:?}\", \"delta\": \"{}\", \"got\": \"{:?}\"}}, \"rerun\": \"replay pos_arith\"}}", len0, d, pb.length());
                 }
             }
         }
@@ -242,7 +242,7 @@ pub fn time_keys(_args: &[String]) -> String {
                     bad = Some((want, got));   // a second boundary between the frame and the getters: retried
                 }
                 if let Some((want, got)) = bad {
-                    return format!("{{\"found\": true, \"clause\": \"C11 the elapsed / eta / duration keys equal the formatted getter values at the same instant\", \"input\": {{\"length\": {:?}, \"position\": {}, \"finished\": {}, \"with_elapsed_secs\": {}, \"expected\": {}, \"screen\": {}}}, \"rerun\": \"replay time_keys\"}}",
+                    return format!("{{\"found\": true, \"clause\": \"C11 the elapsed / eta / duration keys equal the formatted getter values at the same instant\", \"input\": {{\"length\": \"{:?}\", \"position\": {}, \"finished\": {}, \"with_elapsed_secs\": {}, \"expected\": {}, \"screen\": {}}}, \"rerun\": \"replay time_keys\"}}",
                         len, pos, finished, secs, crate::js(&want), crate::js(&got));
                 }
             }
@@ -282,6 +282,147 @@ pub fn multi_move(_args: &[String]) -> String {
                 let h: Vec<&str> = hist.iter().map(String::as_str).collect();
                 return format!("{{\"found\": true, \"clause\": \"C02 a bar moved to another MultiProgress is shown there once, in order, and no longer in the first one\", \"input\": {{\"history\": {}, \"expected\": {}, \"screens\": {}}}, \"rerun\": \"replay multi_move\"}}",
                     crate::jlist(&h), crate::js(&format!("mp1: {:?} mp2: {:?}", want1, want2)), crate::js(&format!("mp1: {:?} mp2: {:?}", g1, g2)));
+            }
+        }
+    }
+    format!("{{\"found\": false, \"tried\": {}}}", tried)
+}
+
+/// C11: {spinner} shows the tick string of the CURRENT style for the number of ticks so far, also after the style was
+/// replaced by one with a different number of tick strings (k ticks with n frames, then m frames).
+pub fn spinner_ticks(_args: &[String]) -> String {
+    use indicatif::{InMemoryTerm, ProgressBar, ProgressDrawTarget};
+    std::panic::set_hook(Box::new(|_| {}));
+    let mut tried = 0u64;
+    let sets: [&[&str]; 4] = [&["a0", "a1", "a2", "A"], &["b0", "b1", "b2", "b3", "b4", "B"], &["c0", "C"], &["0", "1", "2", "3", "D"]];
+    for (i, first) in sets.iter().enumerate() {
+        for (j, second) in sets.iter().enumerate() {
+            for k in [0u64, 1, 2, 3, 4, 5, 7, 31] {
+                let term = InMemoryTerm::new(4, 40);
+                let pb = ProgressBar::with_draw_target(None, ProgressDrawTarget::term_like(Box::new(term.clone())));
+                pb.set_style(ProgressStyle::with_template("{spinner}|").unwrap().tick_strings(first));
+                for _ in 0..k { pb.tick(); }
+                let s2 = ProgressStyle::with_template("{spinner}|").unwrap().tick_strings(second);
+                let want_running = format!("{}|", s2.get_tick_str(k + 1));
+                pb.set_style(s2.clone());
+                pb.tick();
+                tried += 1;
+                let got = term.contents();
+                if got != want_running {
+                    return format!("{{\"found\": true, \"clause\": \"C11 spinner shows the current style's tick string for the current tick count\", \"input\": {{\"history\": \"{} ticks with tick set #{}, set_style(tick set #{}), tick\", \"expected\": {}, \"screen\": {}}}, \"rerun\": \"replay spinner_ticks\"}}",
+                        k, i, j, crate::js(&want_running), crate::js(&got));
+                }
+                pb.finish();
+                tried += 1;
+                let want_final = format!("{}|", s2.get_final_tick_str());
+                let got = term.contents();
+                if got != want_final {
+                    return format!("{{\"found\": true, \"clause\": \"C11 spinner shows the final tick string once finished\", \"input\": {{\"history\": \"{} ticks with tick set #{}, set_style(tick set #{}), tick, finish\", \"expected\": {}, \"screen\": {}}}, \"rerun\": \"replay spinner_ticks\"}}",
+                        k, i, j, crate::js(&want_final), crate::js(&got));
+                }
+            }
+        }
+    }
+    format!("{{\"found\": false, \"tried\": {}}}", tried)
+}
+
+/// C07: concurrent inc / dec from several threads and clones are never lost: the final position is defined by the
+/// multiset of calls (three mixes, 8 threads x 20000 calls each; lost updates show up as a wrong total).
+pub fn pos_concurrent(_args: &[String]) -> String {
+    use indicatif::ProgressBar;
+    use std::thread;
+    std::panic::set_hook(Box::new(|_| {}));
+    let mut tried = 0u64;
+    for mix in 0..3 {
+        for _round in 0..3 {
+            let pb = ProgressBar::hidden();
+            pb.set_length(1 << 40);
+            pb.set_position(1_000_000);
+            let mut hs = vec![];
+            for t in 0..8u64 {
+                let p = pb.clone();
+                hs.push(thread::spawn(move || {
+                    for i in 0..20000u64 {
+                        match mix {
+                            0 => p.inc(1),
+                            1 => if t % 2 == 0 { p.inc(2) } else { p.dec(1) },
+                            _ => if (i + t) % 3 == 0 { p.dec(3) } else { p.inc(2) },
+                        }
+                    }
+                }));
+            }
+            for h in hs { let _ = h.join(); }
+            let want: u64 = match mix {
+                0 => 1_000_000 + 8 * 20000,
+                1 => 1_000_000 + 4 * 20000 * 2 - 4 * 20000,
+                _ => {
+                    let mut v: i64 = 1_000_000;
+                    for t in 0..8u64 { for i in 0..20000u64 { if (i + t) % 3 == 0 { v -= 3 } else { v += 2 } } }
+                    v as u64
+                }
+            };
+            tried += 1;
+            if pb.position() != want {
+                return format!("{{\"found\": true, \"clause\": \"C07 concurrent inc / dec calls are never lost\", \"input\": {{\"mix\": {}, \"threads\": 8, \"calls_per_thread\": 20000, \"expected\": \"{}\", \"got\": \"{}\"}}, \"rerun\": \"replay pos_concurrent\"}}",
+                    mix, want, pb.position());
+            }
+        }
+    }
+    format!("{{\"found\": false, \"tried\": {}}}", tried)
+}
+
+/// C06: a bar on a terminal that is not a tty (console::Term over a plain file) is hidden: no call writes a byte to it,
+/// is_hidden() is true, and the getters equal those of a visible bar after the same calls; standalone and as members of a
+/// MultiProgress on such a terminal.
+pub fn term_not_tty(_args: &[String]) -> String {
+    use indicatif::{InMemoryTerm, MultiProgress, ProgressBar, ProgressDrawTarget, ProgressFinish};
+    use std::io::{Read, Seek, SeekFrom};
+    std::panic::set_hook(Box::new(|_| {}));
+    let mut tried = 0u64;
+    let dir = std::env::temp_dir();
+    let mkterm = |tag: &str| {
+        let path = dir.join(format!("verif-replay-notty-{}-{}", std::process::id(), tag));
+        let f = std::fs::OpenOptions::new().create(true).truncate(true).read(true).write(true).open(&path).unwrap();
+        let r = f.try_clone().unwrap();
+        let w = f.try_clone().unwrap();
+        (console::Term::read_write_pair(r, w), f, path)
+    };
+    let ops: Vec<(&str, Box<dyn Fn(&ProgressBar)>)> = vec![
+        ("inc(2)", Box::new(|p| p.inc(2))), ("set_message(m)", Box::new(|p| p.set_message("m"))), ("tick", Box::new(|p| p.tick())), ("println(x)", Box::new(|p| p.println("x"))),
+        ("suspend", Box::new(|p| p.suspend(|| ()))), ("set_tab_width(3)", Box::new(|p| p.set_tab_width(3))), ("finish", Box::new(|p| p.finish())),
+        ("finish_with_message(done)", Box::new(|p| p.finish_with_message("done"))), ("abandon", Box::new(|p| p.abandon())), ("finish_and_clear", Box::new(|p| p.finish_and_clear())), ("reset", Box::new(|p| p.reset())),
+    ];
+    for multi in [false, true] {
+        for i in 0..ops.len() {
+            for j in 0..ops.len() {
+                let (term, mut file, path) = mkterm(&format!("{}-{}-{}", multi as u8, i, j));
+                let vis = ProgressBar::with_draw_target(Some(10), ProgressDrawTarget::term_like(Box::new(InMemoryTerm::new(10, 40)))).with_finish(ProgressFinish::AndLeave);
+                let mp;
+                let hid = if multi {
+                    mp = Some(MultiProgress::with_draw_target(ProgressDrawTarget::term(term, 20)));
+                    mp.as_ref().unwrap().add(ProgressBar::new(10).with_finish(ProgressFinish::AndLeave))
+                } else {
+                    mp = None;
+                    ProgressBar::with_draw_target(Some(10), ProgressDrawTarget::term(term, 20)).with_finish(ProgressFinish::AndLeave)
+                };
+                let mut hist = vec![if multi { "member of a MultiProgress on a console::Term over a plain file" } else { "bar on a console::Term over a plain file" }];
+                for k in [i, j] { (ops[k].1)(&vis); (ops[k].1)(&hid); hist.push(ops[k].0); }
+                if let Some(m) = &mp { let _ = m.println("log"); m.suspend(|| ()); hist.push("mp.println(log); mp.suspend"); }
+                let g = (vis.position(), vis.length(), vis.message(), vis.prefix(), vis.is_finished());
+                let h = (hid.position(), hid.length(), hid.message(), hid.prefix(), hid.is_finished());
+                let hidden = hid.is_hidden();
+                drop(hid);
+                drop(mp);
+                hist.push("drop");
+                let mut written = String::new();
+                let _ = file.seek(SeekFrom::Start(0));
+                let _ = file.read_to_string(&mut written);
+                let _ = std::fs::remove_file(&path);
+                tried += 1;
+                if !written.is_empty() || !hidden || g != h {
+                    return format!("{{\"found\": true, \"clause\": \"C06 a bar on a terminal that is not a tty performs no terminal write, reports is_hidden() and keeps the same logical state as a visible bar\", \"input\": {{\"history\": {}, \"bytes_written\": {}, \"is_hidden\": {}, \"visible_getters\": {}, \"hidden_getters\": {}}}, \"rerun\": \"replay term_not_tty\"}}",
+                        crate::jlist(&hist), crate::js(&written), hidden, crate::js(&format!("{:?}", g)), crate::js(&format!("{:?}", h)));
+                }
             }
         }
     }
